@@ -276,6 +276,30 @@ def main(run):
                             dict(desc, edited=pars2, DirectModel=np.asarray(A2).tolist(), sasview=np.asarray(C3).tolist())))
                 except Exception as exc:  # noqa
                     run.add(Finding("C10:agree:error:%s" % name, "%s: an interface raised %r after an in-place edit" % (name, exc), desc))
+            # then, still on the same long-lived objects, a parameter set whose whole distribution lies outside the
+            # limits (an empty mesh): every interface returns the same thing (the background), whatever was
+            # evaluated before
+            if not dim2 and worst <= TOL and rep < 2:
+                cand = [p for p in pt.call_parameters if p.name in pars and p.type == "volume" and p.length == 1 and p.limits[0] == 0.0
+                        and p.name in pt.pd_1d and p.name != mult_info.control]
+                if cand:
+                    p = rng.choice(cand)
+                    pars3 = {k: v for k, v in pars.items() if not k.startswith(p.name + "_pd")}
+                    pars3[p.name] = -abs(float(pars[p.name])) - 1.0
+                    pars3[p.name + "_pd"] = 0.1; pars3[p.name + "_pd_n"] = 7
+                    try:
+                        A3 = calc1(**pars3)
+                        B3 = direct_model.Iq(name, q1, **pars3)
+                        D3 = bumps_model.Experiment(data1, bumps_model.Model(model, **pars3)).theory()
+                        evals += 3
+                        stats["empty_after_use"] = stats.get("empty_after_use", 0) + 1
+                        bgv = pars3.get("background", 0.0)
+                        if rel(A3, B3) > TOL or rel(D3, B3) > TOL or not np.allclose(B3, bgv, rtol=1e-12, atol=1e-300):
+                            run.add(Finding("C10:agree-empty:%s" % name, "%s: with %s entirely outside its limits (empty mesh) a reused DirectModel gives %s, Iq() %s, bumps %s; background is %r" % (
+                                name, p.name, np.asarray(A3).tolist()[:3], np.asarray(B3).tolist()[:3], np.asarray(D3).tolist()[:3], bgv),
+                                dict(desc, then=pars3, DirectModel=np.asarray(A3).tolist(), Iq=np.asarray(B3).tolist())))
+                    except Exception as exc:  # noqa
+                        run.add(Finding("C10:agree:error:%s" % name, "%s: an interface raised %r for an empty distribution" % (name, exc), dict(desc, then=pars3)))
             if len(run.coverage["samples"]) < 6:
                 run.sample(dict(model=name, multiplicity=mult, dim=desc["dim"], pars={k: pars[k] for k in list(pars)[:8]}))
             # resolution-bearing data: DirectModel, Iq and bumps (the SasView object has no resolution)
